@@ -2,6 +2,7 @@ import GlonaxModel.Driver.C07
 import GlonaxModel.Driver.Hcu
 import GlonaxModel.Driver.Wire
 import GlonaxModel.Driver.Session
+import GlonaxModel.Driver.Drivers
 open Glonax.Driver
 
 def dispatch (prop : String) (inp out : List String) : Verdict :=
@@ -15,6 +16,10 @@ def dispatch (prop : String) (inp out : List String) : Verdict :=
   | "C04" => SessDrv.check "C04" inp out
   | "C05" => SessDrv.check "C05" inp out
   | "C14" => SessDrv.check "C14" inp out
+  | "C06" => DrvDrv.check "C06" inp out
+  | "C08" => DrvDrv.check "C08" inp out
+  | "C11" => DrvDrv.check "C11" inp out
+  | "C12" => DrvDrv.check "C12" inp out
   | _ => .bad s!"unknown property {prop}"
 
 structure Tally where
